@@ -2809,6 +2809,17 @@ func (ir *iteratorRecord) step() (value Value, ex *Exception) {
 	return
 }
 
+// stepNoValue advances the iterator without reading the 'value' of the result (IteratorStep)
+func (ir *iteratorRecord) stepNoValue() (ex *Exception) {
+	r := ir.iterator.runtime
+	return r.vm.try(func() {
+		res := r.toObject(ir.next(FunctionCall{This: ir.iterator}))
+		if iteratorComplete(res) {
+			ir.close()
+		}
+	})
+}
+
 func (ir *iteratorRecord) returnIter() {
 	if ir.iterator == nil {
 		return
